@@ -44,6 +44,10 @@ pub struct Case {
     /// then replaced IN THE SAME VARIABLE by the graph under test
     #[serde(default)]
     pub prior_graph: bool,
+    /// state carried between public calls: `fix_exts(Some(mask))` with this seeded node mask is
+    /// applied to all three graphs before they are queried (0 = not applied)
+    #[serde(default)]
+    pub fix_mask_seed: u64,
 }
 
 pub fn shuttle_config() -> Config {
@@ -153,7 +157,13 @@ pub fn build_base<K: Kmer + Send + Sync + 'static>(g: &GraphSpec) -> BaseGraph<K
     b
 }
 
-fn scenario<K: Kmer + Send + Sync + Serialize + DeserializeOwned + 'static>(base: &BaseGraph<K, u16>, prior: Option<&BaseGraph<K, u16>>, extra: &[K], sh: &Mutex<Shared>) {
+fn scenario<K: Kmer + Send + Sync + Serialize + DeserializeOwned + 'static>(
+    base: &BaseGraph<K, u16>,
+    prior: Option<&BaseGraph<K, u16>>,
+    extra: &[K],
+    fix_mask_seed: u64,
+    sh: &Mutex<Shared>,
+) {
     rayon::reset_interleaving();
     // PCT's warm-up execution insists on seeing at least one step with two runnable tasks
     let warm = shuttle::thread::spawn(|| shuttle::thread::yield_now());
@@ -176,8 +186,21 @@ fn scenario<K: Kmer + Send + Sync + Serialize + DeserializeOwned + 'static>(base
     rayon::reset_interleaving();
     g1 = base.clone().finish();
     let il = rayon::interleaving();
-    let g2 = base.clone().finish_serial();
-    let g3 = base.clone().finish();
+    let mut g2 = base.clone().finish_serial();
+    let mut g3 = base.clone().finish();
+    if fix_mask_seed != 0 {
+        // the same pruning call on all three: lookups must stay exact for every node afterwards
+        let mut mr = Rng::new(fix_mask_seed);
+        let mut mask = bit_set::BitSet::with_capacity(g1.len());
+        for i in 0..g1.len() {
+            if mr.chance(2, 3) {
+                mask.insert(i);
+            }
+        }
+        g1.fix_exts(Some(&mask));
+        g2.fix_exts(Some(&mask));
+        g3.fix_exts(Some(&mask));
+    }
     let p = probes(&g1, extra);
     let t1 = transcript(&g1, &p);
     let t2 = transcript(&g2, &p);
@@ -259,8 +282,9 @@ fn run_k<K: Kmer + Send + Sync + Serialize + DeserializeOwned + 'static>(c: &Cas
     let slog: Option<ScheduleLog> = if rec.recording() { Some(Arc::new(Mutex::new(Vec::new()))) } else { None };
     {
         let (base, prior, extra, sh) = (base.clone(), prior.clone(), extra.clone(), sh.clone());
+        let fix_mask_seed = c.fix_mask_seed;
         let (sched, seed, n, sl) = (c.sched.clone(), c.sched_seed, c.executions, slog.clone());
-        let r = simcore::driver::guarded(move || run_batch(&sched, seed, n, sl, move || scenario::<K>(&base, prior.as_ref().as_ref(), &extra, &sh)));
+        let r = simcore::driver::guarded(move || run_batch(&sched, seed, n, sl, move || scenario::<K>(&base, prior.as_ref().as_ref(), &extra, fix_mask_seed, &sh)));
         if let Some(l) = &slog {
             note_schedules(rec, l);
         }
@@ -332,6 +356,7 @@ impl Harness for C19 {
             max_workers: *rng.pick(&[1usize, 2, 2, 3, 4, 4, 8, 16]),
             probe_seed: rng.next_u64(),
             prior_graph: rng.chance(1, 4),
+            fix_mask_seed: if rng.chance(1, 5) { rng.next_u64() | 1 } else { 0 },
         }
     }
     fn run(&self, c: &Case, rec: &mut Rec) -> Result<(), Violation> {
@@ -360,6 +385,11 @@ impl Harness for C19 {
         if c.prior_graph {
             let mut x = c.clone();
             x.prior_graph = false;
+            out.push(x);
+        }
+        if c.fix_mask_seed != 0 {
+            let mut x = c.clone();
+            x.fix_mask_seed = 0;
             out.push(x);
         }
         if c.executions > 1 {
@@ -423,7 +453,7 @@ pub fn nondet_selftest(seed: u64, n_cases: u64) -> i32 {
         let (b2, s2) = (base.clone(), sh.clone());
         let r = simcore::driver::guarded(move || {
             let sched = UncontrolledNondeterminismCheckScheduler::new(RandomScheduler::new_from_seed(c.sched_seed, 3));
-            Runner::new(sched, shuttle_config()).run(move || scenario::<Kmer6>(&b2, None, &[], &s2));
+            Runner::new(sched, shuttle_config()).run(move || scenario::<Kmer6>(&b2, None, &[], 0, &s2));
         });
         execs += sh.lock().unwrap().executions;
         if let Err((loc, msg)) = r {
